@@ -312,9 +312,9 @@ func init() {
 		Assume: []string{"calling convention for map codecs as used by StructCodec (map pointer for writing, address of the map variable for reading)", "model.Canon as the independent walker"},
 		Plan: func(tier string) []core.Lane {
 			if tier == "thorough" {
-				return []core.Lane{{Lane: "plain", Cases: 40000, Shards: 16, TimeoutS: 3600}, {Lane: "race", Cases: 4000, Shards: 16, TimeoutS: 3600}}
+				return []core.Lane{{Lane: "plain", Cases: 240000, Shards: 16, TimeoutS: 7200}, {Lane: "race", Cases: 20000, Shards: 16, TimeoutS: 3600}}
 			}
-			return []core.Lane{{Lane: "plain", Cases: 1200, Shards: 16, TimeoutS: 1200}}
+			return []core.Lane{{Lane: "plain", Cases: 4000, Shards: 16, TimeoutS: 1200}}
 		},
 		Case: c05Case,
 	})
